@@ -16,12 +16,14 @@ private theorem patchInv_of_inv {orig s} (h : Inv orig s) : PatchInv orig s :=
 
 /-- **C02_step_over_executes_once.**  In any live state that satisfies the patch invariant and is stopped at a
 registered breakpoint `b` (pc = `p`), `step_over_breakpoint` (disable → single step → enable) executes exactly the
-one instruction at `p` — `idx` advances by exactly 1, so nothing is skipped or executed twice — on its ORIGINAL byte,
+one instruction at `p` — `idx` advances by exactly 1 and the execution log grows by exactly that instruction, so
+nothing is skipped or executed twice — on its ORIGINAL byte,
 and leaves the text, the registry lookups and the patch invariant as they were. -/
 theorem C02_step_over_executes_once (orig : Code) (s : St) (p : Addr) (b : Bp)
     (ho : Bytes orig) (hinv : PatchInv orig s) (hs : s.status ≠ .exited)
     (hpc : pc s = some p) (hb : find? s.active p = some b) (hcc : orig p ≠ 0xCC) :
     (stepOverBreakpoint s).idx = s.idx + 1 ∧
+    (stepOverBreakpoint s).execd = s.execd ++ [(s.idx, orig p)] ∧
     (bpDisable s b).1.code p = orig p ∧
     (stepOverBreakpoint s).code = s.code ∧
     (∀ a, find? (stepOverBreakpoint s).active a = find? s.active a) ∧
@@ -31,7 +33,9 @@ theorem C02_step_over_executes_once (orig : Code) (s : St) (p : Addr) (b : Bp)
   have h := inv_of_patchInv hinv hs hi
   obtain ⟨g1, g2, g3, g4, _, g6, _, _⟩ := stepOver_at h ho p b hpc hb
   rw [if_neg (show ¬ orig p = INT3 from hcc)] at g4
-  refine ⟨g4, ?_, g2, g3, patchInv_of_inv g1, g6⟩
+  have ge := stepOver_at_execd h ho p b hpc hb
+  rw [if_neg (show ¬ orig p = INT3 from hcc)] at ge
+  refine ⟨g4, ge, ?_, g2, g3, patchInv_of_inv g1, g6⟩
   have hbm := find?_some hb
   have hsv : b.saved = orig p := by rw [h.saved b hbm.1, hbm.2]
   rw [bpDisable_code s b (h.bytes ho) (by rw [hsv]; exact ho _), hbm.2, hsv, set_apply]
@@ -119,29 +123,39 @@ theorem C02_text_after_remove (τ : List Addr) (entry : Addr) (orig : Code) (exi
     | exited => rw [hst, hs2] at hs; exact absurd rfl hs
   · rw [hst, hex] at hs; exact absurd rfl hs
 
-/-- **C02_native_equivalence** (for this command alphabet).  The model's machine has no way to move except
-`PTRACE_CONT` (`run`) and `PTRACE_SINGLESTEP` (`singleStep`), which go forward along `τ`; the theorem says that under
-every command history (a) the position never goes back and stays within the trace, and, in every live state that
-satisfies the patch invariant (by `C01_patch_inv` and the lemmas behind it: every state in which the debugger resumes
-the debuggee), (b) every instruction that `PTRACE_CONT` passes is executed on its original byte and (c) the single
-step of `step_over_breakpoint` is executed on the original byte.  So what the debuggee executes is a prefix of its
-native run, each instruction once, in order, unmodified. -/
-theorem C02_native_equivalence (τ : List Addr) (entry : Addr) (orig : Code) (exitCode : Nat) (ho : Bytes orig) :
-    (∀ (ops : List Op) (op : Op),
-      (execAll (init τ entry orig exitCode) ops).1.idx
-        ≤ (exec (execAll (init τ entry orig exitCode) ops).1 op).1.idx ∧
-      (exec (execAll (init τ entry orig exitCode) ops).1 op).1.idx ≤ τ.length) ∧
+/-- **C02_native_equivalence** (for this command alphabet).  The model carries a ghost log `execd` (never read by
+the model) to which `PTRACE_CONT` (`run`) and `PTRACE_SINGLESTEP` (`singleStep`) — the only ways the debuggee ever
+executes anything — append every instruction they execute, as (trace position, byte found at its pc at that moment).
+After EVERY command history (any trace, any entry address, no hypothesis on the commands) that log is exactly the
+native run up to the current position: positions `0, 1, …, idx-1`, each exactly once, in order, each executed on its
+ORIGINAL byte.  So what the debuggee has computed is what the same prefix of its native run computes; and the
+position only moves forward and stays within the trace. -/
+theorem C02_native_equivalence (τ : List Addr) (entry : Addr) (orig : Code) (exitCode : Nat) (ho : Bytes orig)
+    (ops : List Op) :
+    (execAll (init τ entry orig exitCode) ops).1.execd
+      = (List.range (execAll (init τ entry orig exitCode) ops).1.idx).map (fun k => (k, orig (τ.getD k 0))) ∧
+    (execAll (init τ entry orig exitCode) ops).1.idx ≤ τ.length ∧
+    ∀ op : Op, (execAll (init τ entry orig exitCode) ops).1.idx
+      ≤ (exec (execAll (init τ entry orig exitCode) ops).1 op).1.idx := by
+  obtain ⟨g1, g2, _⟩ := execAll_ginv ho ops _ (init_ginv τ entry orig exitCode)
+  have hl := execAll_log ho ops _ (init_ginv τ entry orig exitCode) (init_log τ entry orig exitCode)
+  refine ⟨?_, ?_, fun op => (exec_ginv ho g1 op).2.2.2⟩
+  · have := hl.eq
+    rw [g2] at this
+    exact this
+  · have := g1.idxLe
+    rw [g2] at this
+    exact this
+
+/-- **C02_resumes_on_original_bytes.**  The state-level facts behind the previous theorem: in every live state
+satisfying the patch invariant, every instruction that `PTRACE_CONT` passes has its original byte, and the single step
+of `step_over_breakpoint` happens on the original byte. -/
+theorem C02_resumes_on_original_bytes (orig : Code) (ho : Bytes orig) :
     (∀ (s : St), PatchInv orig s → s.status ≠ .exited →
       ∀ k, s.idx ≤ k → k < (run s).idx → ∀ hk : k < s.τ.length, s.code s.τ[k] = orig s.τ[k]) ∧
     (∀ (s : St) (p : Addr) (b : Bp), PatchInv orig s → s.status ≠ .exited → pc s = some p →
       find? s.active p = some b → (bpDisable s b).1.code p = orig p) := by
-  refine ⟨fun ops op => ?_, fun s hinv hs k h1 h2 hk => ?_, fun s p b hinv hs hpc hb => ?_⟩
-  · obtain ⟨g1, g2, _⟩ := execAll_ginv ho ops _ (init_ginv τ entry orig exitCode)
-    obtain ⟨e1, e2, _, e4⟩ := exec_ginv ho g1 op
-    refine ⟨e4, ?_⟩
-    have := e1.idxLe
-    rw [e2, g2] at this
-    exact this
+  refine ⟨fun s hinv hs k h1 h2 hk => ?_, fun s p b hinv hs hpc hb => ?_⟩
   · have hne : (s.code s.τ[k] == INT3) = false :=
       firstFrom_min (fun a => s.code a == INT3) s.τ s.idx k h1 h2 hk
     have ht := hinv.text hs s.τ[k]
@@ -154,5 +168,10 @@ theorem C02_native_equivalence (τ : List Addr) (entry : Addr) (orig : Code) (ex
     have hsv : b.saved = orig p := by rw [h.saved b hbm.1, hbm.2]
     rw [bpDisable_code s b (h.bytes ho) (by rw [hsv]; exact ho _), hbm.2, hsv, set_apply]
     simp
+
+/-! sanity test (not a proof): the log of a run with a loop and a removed breakpoint -/
+#guard (execAll (init [0x1000, 0x1004, 0x1008, 0x1004, 0x1008, 0x100c] 0x1000 (fun a => a % 251) 7)
+    [.brk 0x1004, .start, .cont, .remove 0x1004, .brk 0x1008, .cont]).1.execd
+  == [(0, 0x1000 % 251), (1, 0x1004 % 251), (2, 0x1008 % 251), (3, 0x1004 % 251)]
 
 end BsVerif.Bp
